@@ -3,6 +3,7 @@
 From Coq Require Import List ZArith Bool Permutation.
 From TskVerif Require Import Base.Common C19.Model C19.IbdAlg C19.RunsProofs C19.StoreProofs
   C19.SpecProofs C19.AlgProofs C19.SliceProofs C19.RefineProofs C19.TwoPos C19.FullProofs C19.GroupProofs C19.TotalProofs C19.FacadeProofs C19.StoreSpec C19.QueueProofs C19.SoundProofs.
+From TskVerif Require Import C19.PairKey.
 Import ListNotations.
 Open Scope Z_scope.
 
@@ -369,3 +370,12 @@ Theorem every_spec_segment_is_recorded :
       exists r, In r out /\ pair_is a b r = true /\ rec_seg r = s /\
                 count_occ_seg s (map rec_seg (filter (pair_is a b) out)) = count_occ_seg s segs.
 Proof. exact every_spec_segment_is_recorded_lemma. Qed.
+
+(* The pair key of the result store is symmetric, and integer_to_pair inverts it to (min, max):
+   with pair_key_identifies_pair, a bijection between unordered pairs and their keys. *)
+Theorem pair_key_symmetric : forall a b N, pair_to_integer a b N = pair_to_integer b a N.
+Proof. exact pair_key_symmetric_proof. Qed.
+
+Theorem pair_key_roundtrip : forall a b N, 0 <= a -> a <= b -> b < N ->
+  integer_to_pair (pair_to_integer a b N) N = (a, b).
+Proof. exact pair_key_roundtrip_proof. Qed.
